@@ -56,11 +56,123 @@ theorem sweep_noop (fwd : Bool) (chi chi' : Option Int) (tol tol' full : Bool)
         | error e => rfl
         | ok a => exact ih' a
 
+theorem truncStep_of_guard_false (skip : Bool) (m : MPS) (mult : Int) (chi : Option Int) (tol : Bool)
+    (msk : Option (List Bool)) (h : truncateGuard m chi tol msk = false) :
+    truncStep skip m mult chi tol msk = .ok (m, mult) := by
+  cases skip with
+  | true => rfl
+  | false => simp only [truncStep, Bool.false_eq_true, if_false, truncate_of_guard_false _ _ _ _ h, Int.mul_one]
+
+/-- the bond dimensions that occur during the column loop run without truncation: `bond_dimension` of every
+    result of `contract_pairwise` (the loop stops at the first exception) -/
+def sweepBonds (fwd : Bool) : MPS → List MPS → List Nat
+  | _, [] => []
+  | res, mps :: rest =>
+    match pairStep fwd res mps with
+    | .error _ => []
+    | .ok res' => bondDimension res' :: sweepBonds fwd res' rest
+
+/-- `step is None or step > 0` -/
+def stepFwd (step : Option Int) : Bool := match step with | none => true | some s => decide (s > 0)
+
+theorem contract_unfold (tn : Net) (chi : Option Int) (tol : Bool) (start stop step : Option Int)
+    (mask : Option Mask) :
+    contract tn chi tol start stop step mask =
+      if !maskOK tn mask then .error .assertion else
+      match colRange start stop step tn.ncols with
+      | .error e => .error e
+      | .ok cr => contractCols tn chi tol (stepFwd step) mask cr := rfl
+
+/-- the bond dimensions that occur during `contract tn … start stop step` run without truncation -/
+def contractBonds (tn : Net) (start stop step : Option Int) : List Nat :=
+  match colRange start stop step tn.ncols with
+  | .ok (c0 :: cs) => sweepBonds (stepFwd step) (tn.col c0) (cs.map tn.col)
+  | _ => []
+
+/-- a bond limit `chi` at least as large as every bond that occurs is a no-op for the whole sweep -/
+theorem sweep_noop_chi (fwd : Bool) (c : Int) (chi' : Option Int) (tol' full : Bool)
+    (cols cols' : List (MPS × Option (List Bool))) (res : MPS) (mult : Int)
+    (hc : cols.map Prod.fst = cols'.map Prod.fst)
+    (hb : ∀ b ∈ sweepBonds fwd res (cols.map Prod.fst), (b : Int) ≤ c)
+    (h2 : ∀ mps, ∀ p ∈ cols', truncateGuard mps chi' tol' p.2 = false) :
+    sweep fwd (some c) false full (res, mult) cols = sweep fwd chi' tol' full (res, mult) cols' := by
+  induction cols generalizing cols' res mult with
+  | nil => cases cols' with
+    | nil => rfl
+    | cons _ _ => simp at hc
+  | cons p ps ih =>
+    cases cols' with
+    | nil => simp at hc
+    | cons p' ps' =>
+      obtain ⟨mps, msk⟩ := p
+      obtain ⟨mps', msk'⟩ := p'
+      simp only [List.map_cons, List.cons.injEq] at hc
+      obtain ⟨rfl, hc⟩ := hc
+      have hemp : ps.isEmpty = ps'.isEmpty := by
+        have := congrArg List.length hc
+        simp only [List.length_map] at this
+        cases ps <;> cases ps' <;> simp_all
+      simp only [sweep]
+      simp only [List.map_cons, sweepBonds] at hb
+      cases hps : pairStep fwd res mps with
+      | error e => rfl
+      | ok r =>
+        rw [hps] at hb
+        simp only [List.mem_cons, forall_eq_or_imp] at hb
+        have hg : truncateGuard r (some c) false msk = false := by
+          have : ¬ (c < (bondDimension r : Int)) := by omega
+          simp [truncateGuard, this]
+        simp only [truncStep_of_guard_false _ r mult _ _ _ hg,
+          truncStep_of_guard_false _ r mult _ _ _ (h2 r _ (List.mem_cons_self ..))]
+        exact ih ps' r mult hc hb.2 (fun m p hp => h2 m p (List.mem_cons_of_mem _ hp))
+
 theorem mask_col_allfalse (m : Mask) (h : ∀ i, m.a.getD i false = false) (c : Nat) :
     (m.col c).any id = false := by
   simp only [Mask.col, List.any_eq_false, List.mem_map, List.mem_range, id]
   rintro x ⟨r, _, rfl⟩
   simp [h]
+
+/-- bonds that occur when the columns `cr` are contracted without truncation -/
+def colsBonds (tn : Net) (fwd : Bool) : List Nat → List Nat
+  | c0 :: cs => sweepBonds fwd (tn.col c0) (cs.map tn.col)
+  | [] => []
+
+theorem contractCols_noop (tn : Net) (chi : Option Int) (tol fwd : Bool) (mask : Option Mask) (cr : List Nat)
+    (h : (tol = false ∧ (chi = none ∨ chi = some 0 ∨ ∃ c, chi = some c ∧ ∀ b ∈ colsBonds tn fwd cr, (b : Int) ≤ c)) ∨
+         (∃ m, mask = some m ∧ ∀ i, m.a.getD i false = false)) :
+    contractCols tn chi tol fwd mask cr = contractCols tn none false fwd none cr := by
+  simp only [contractCols, Option.map_none]
+  cases cr with
+  | nil => rfl
+  | cons c cs =>
+    simp only [List.map_cons]
+    have hguard' : ∀ (mps : MPS) (p : MPS × Option (List Bool)),
+        p ∈ cs.map (fun c => (tn.col c, (none : Option (List Bool)))) → truncateGuard mps none false p.2 = false := by
+      intro mps p _; simp [truncateGuard]
+    have hfst : (cs.map fun c => (tn.col c, mask.map fun m => m.col c)).map Prod.fst
+        = (cs.map fun c => (tn.col c, (none : Option (List Bool)))).map Prod.fst := by
+      simp [List.map_map, Function.comp_def]
+    have key : sweep fwd chi tol (tn.ncols == (c :: cs).length) (tn.col c, 1)
+          (cs.map fun c => (tn.col c, mask.map fun m => m.col c))
+        = sweep fwd none false (tn.ncols == (c :: cs).length) (tn.col c, 1) (cs.map fun c => (tn.col c, none)) := by
+      rcases h with ⟨rfl, rfl | rfl | ⟨c', rfl, hb⟩⟩ | ⟨m, rfl, hm⟩
+      · exact sweep_noop _ _ _ _ _ _ _ _ _ hfst (fun mps p _ => by simp [truncateGuard]) hguard'
+      · exact sweep_noop _ _ _ _ _ _ _ _ _ hfst (fun mps p _ => by simp [truncateGuard]) hguard'
+      · refine sweep_noop_chi _ c' none false _ _ _ _ _ hfst ?_ hguard'
+        intro b hb'
+        apply hb
+        simpa [colsBonds, List.map_map, Function.comp_def] using hb'
+      · refine sweep_noop _ _ _ _ _ _ _ _ _ hfst (fun mps p hp => ?_) hguard'
+        obtain ⟨c', _, rfl⟩ := List.mem_map.mp hp
+        simp [truncateGuard, mask_col_allfalse m hm c']
+    rw [key]
+
+theorem contractBonds_eq (tn : Net) (start stop step : Option Int) (cr : List Nat)
+    (h : colRange start stop step tn.ncols = .ok cr) :
+    contractBonds tn start stop step = colsBonds tn (stepFwd step) cr := by
+  unfold contractBonds
+  rw [h]
+  cases cr <;> rfl
 
 /-! ### non-contiguous MPS -/
 
